@@ -63,12 +63,15 @@ EXT_X = {
     "quick": [
         ("x_arr5", {"Template": '"f"', "UseInput": "TRUE", "Budget": 5, "Lits": "{1}", "Ops": '{"+"}',
                     "Helpers": '{"counter", "sumto"}', "Prods": '{"now", "arr", "idx", "idxv", "len", "leta", "match"}'}),
+        # array literals whose elements call a closure that assigns a shared variable (order of the elements)
+        ("x_arrclo10", {"Template": '"clo"', "Budget": 10, "Lits": "{2}", "Ops": "{}", "Helpers": "{}", "Prods": '{"app", "arr", "idx"}'}),
         ("x_matchst5", {"Template": '"f"', "Budget": 5, "Lits": "{1}", "Ops": '{"+"}', "Helpers": '{"counter", "lag"}',
                         "Prods": '{"now", "match", "mem"}'}),
     ],
     "thorough": [
         ("x_arr6", {"Template": '"f"', "UseInput": "TRUE", "Budget": 6, "Lits": "{1}", "Ops": '{"+"}',
                     "Helpers": '{"counter", "sumto"}', "Prods": '{"now", "arr", "idx", "idxv", "len", "leta", "match"}'}),
+        ("x_arrclo11", {"Template": '"clo"', "Budget": 11, "Lits": "{2}", "Ops": "{}", "Helpers": "{}", "Prods": '{"app", "arr", "idx", "leta"}'}),
         ("x_matchst6", {"Template": '"f"', "Budget": 6, "Lits": "{1}", "Ops": '{"+"}', "Helpers": '{"counter", "lag"}',
                         "Prods": '{"now", "match", "mem"}'}),
     ],
